@@ -18,7 +18,7 @@ Protocol handler for C20 (benchmark functions).  Floats travel as bit patterns (
   noise <rep0|rep1|each:bits> <result> <draws>   → noisy result + number of unused draws | bad-tape
   bound <kind> <xs>                  → xs
   mpcall <basis|none> <xs> {<fn> <pos> <h> <w>}*  → value | error
-  mpchange …                         see `mpChange`
+  mpchange … / mpcount …              see `mpChange`, `mpCount`
 -/
 namespace DriverC20
 open Proto Bench BenchBin BenchTools MovingPeaks
@@ -153,14 +153,14 @@ def mpSteps (cfg : Config Float) (basis : Option Float) (x : List Float) :
       let v := match call peaks1 basis x with | some v => showFloat v | none => "none"
       mpSteps cfg basis x k peaks1 t1 ((toString peaks1.length ++ "," ++ v) :: acc)
 
-/-- `mpchange <k> <dim> <limits> <sev> <pool> <minC> <maxC> <minH> <maxH> <minW> <maxW> <lambda> <move>
+/-- the common tail `<dim> <limits> <sev> <pool> <minC> <maxC> <minH> <maxH> <minW> <maxW> <lambda> <move>
 <hsev> <wsev> <basis> <x> <npeaks> {<fn> <pos> <h> <w> <last>}* {<draw>}*` -/
-def mpChange (toks : List String) : String :=
+def parseMP (toks : List String) :
+    Option (Config Float × Option Float × List Float × List (Peak Float) × Tape Float) :=
   match toks with
-  | k :: dim :: lim :: sev :: pool :: minC :: maxC :: minH :: maxH :: minW :: maxW :: lam :: move ::
-      hsev :: wsev :: basis :: x :: np :: rest =>
-    match (do
-      let k ← parseNat k; let dim ← parseNat dim; let lim ← parseLimits lim; let sev ← parseFloat sev
+  | dim :: lim :: sev :: pool :: minC :: maxC :: minH :: maxH :: minW :: maxW :: lam :: move ::
+      hsev :: wsev :: basis :: x :: np :: rest => do
+      let dim ← parseNat dim; let lim ← parseLimits lim; let sev ← parseFloat sev
       let pool ← pool.toList.mapM (fun c => parseFn c.toString)
       let minC ← parseFloat minC; let maxC ← parseFloat maxC; let minH ← parseFloat minH
       let maxH ← parseFloat maxH; let minW ← parseFloat minW; let maxW ← parseFloat maxW
@@ -170,14 +170,47 @@ def mpChange (toks : List String) : String :=
       let tape ← rest'.mapM parseDraw
       let cfg : Config Float := ⟨dim, lim, sev, pool, minC, maxC, minH, maxH, minW, maxW, lam, move, hsev, wsev,
         pyRoundFloat⟩
-      pure (k, cfg, basis, x, peaks, tape)) with
+      pure (cfg, basis, x, peaks, tape)
+  | _ => none
+
+def showPeaks (ps : List (Peak Float)) : String :=
+  if ps.isEmpty then "-" else ";".intercalate (ps.map showPeak)
+
+/-- `mpchange <k> <common tail>`: `k` calls of `changePeaks`, after each one `<npeaks>,<call value at x>` -/
+def mpChange (toks : List String) : String :=
+  match toks with
+  | k :: rest =>
+    match (do let k ← parseNat k; let r ← parseMP rest; pure (k, r)) with
     | none => "bad-op"
     | some (k, cfg, basis, x, peaks, tape) =>
       match mpSteps cfg basis x k peaks tape [] with
       | none => "bad-tape"
       | some (steps, peaks', t') =>
-        (if steps.isEmpty then "-" else ";".intercalate steps) ++ " " ++
-        (if peaks'.isEmpty then "-" else ";".intercalate (peaks'.map showPeak)) ++ " " ++ toString t'.length
+        (if steps.isEmpty then "-" else ";".intercalate steps) ++ " " ++ showPeaks peaks' ++ " " ++ toString t'.length
+  | _ => "bad-op"
+
+/-- `mpcount <n> <period> <nevals0> <common tail>`: `n` counted evaluations of `x`; per evaluation
+`<fitness>,<changed>,<nevals>,<npeaks>` -/
+def mpCount (toks : List String) : String :=
+  match toks with
+  | n :: period :: nev0 :: rest =>
+    match (do let n ← parseNat n; let p ← parseInt period; let e ← parseNat nev0; let r ← parseMP rest
+              pure (n, p, e, r)) with
+    | none => "bad-op"
+    | some (n, period, nev0, cfg, basis, x, peaks, tape) =>
+      -- one evaluation at a time so that the state after each can be reported
+      let rec go : Nat → State Float → Tape Float → List String → Option (List String × State Float × Tape Float)
+        | 0, st, t, acc => some (acc.reverse, st, t)
+        | k + 1, st, t, acc =>
+          match evalCounted cfg period (basis.map fun b => fun _ => b) st x t with
+          | none => none
+          | some (v, ch, st1, t1) =>
+            go k st1 t1 ((showFloat v ++ "," ++ showBool ch ++ "," ++ toString st1.nevals ++ "," ++
+              toString st1.peaks.length) :: acc)
+      match go n ⟨peaks, nev0⟩ tape [] with
+      | none => "bad-tape"
+      | some (steps, st, t') =>
+        (if steps.isEmpty then "-" else ";".intercalate steps) ++ " " ++ showPeaks st.peaks ++ " " ++ toString t'.length
   | _ => "bad-op"
 
 def handle : List String → String
@@ -232,6 +265,7 @@ def handle : List String → String
     | some r => showO r
     | none => "bad-op"
   | "mpchange" :: rest => mpChange rest
+  | "mpcount" :: rest => mpCount rest
   | _ => "bad-op"
 
 end DriverC20
